@@ -196,15 +196,31 @@ func runC16(c *Ctx, r *Report) {
 				fname := ssaFuncName(fn)
 				pos := c.Pos(instrPos(ret))
 				// low bound
-				okLo := false
-				if sub, ok := sl.Low.(*ssa.BinOp); ok && sub.Op == token.SUB && li.isPosLoad(sub.X) {
-					if k, ok := constInt(sub.Y); ok && k == 1 {
-						// the load happens before any position write in this function
-						load := sub.X.(*ssa.UnOp)
-						bad := mustPassFromEntry(fn, func(x ssa.Instruction) bool { return x == ssa.Instruction(load) }, li.posWrite)
-						okLo = bad == nil
+				var lowIsEntryPos func(f *ssa.Function, low ssa.Value, depth int) bool
+				lowIsEntryPos = func(f *ssa.Function, low ssa.Value, depth int) bool {
+					if sub, ok := low.(*ssa.BinOp); ok && sub.Op == token.SUB && li.isPosLoad(sub.X) {
+						if k, ok := constInt(sub.Y); ok && k == 1 {
+							// the load happens before any position write in this function
+							load := sub.X.(*ssa.UnOp)
+							return mustPassFromEntry(f, func(x ssa.Instruction) bool { return x == ssa.Instruction(load) }, li.posWrite) == nil
+						}
 					}
+					// the saved position is handed to the reader that finishes the token: every caller saved it at its entry
+					if p, ok := low.(*ssa.Parameter); ok && depth < 3 {
+						sites, ok := c.argsAtCallSites(p)
+						if !ok {
+							return false
+						}
+						for _, s := range sites {
+							if !lowIsEntryPos(s.b.Parent(), s.v, depth+1) {
+								return false
+							}
+						}
+						return true
+					}
+					return false
 				}
+				okLo := lowIsEntryPos(fn, sl.Low, 0)
 				r.Check(okLo, "C16.R1", fname, fmt.Sprintf("low bound of the token text returned (%s)", describeBound(li, sl.Low)), pos,
 					"the token text does not start at the token's first byte (position at entry - 1)")
 				// high bound
